@@ -56,6 +56,22 @@ pub fn err_class(e: &str) -> String {
     e.split(|c: char| !c.is_ascii_alphabetic()).filter(|w| !w.is_empty()).take(6).collect::<Vec<_>>().join("_").to_lowercase()
 }
 
+/// like `err_class`, but quoted identifiers / values are dropped first so the class does not depend on names
+fn err_class2(e: &str) -> String {
+    let mut out = String::new();
+    let mut q = false;
+    for c in e.chars() {
+        if c == '\'' {
+            q = !q;
+            continue;
+        }
+        if !q {
+            out.push(c);
+        }
+    }
+    err_class(out.split(':').next().unwrap_or(&out))
+}
+
 // ---------------------------------------------------------------- generation
 
 /// features drawn per history (stratified generation: most histories are free of any given feature)
@@ -152,17 +168,17 @@ impl Gen {
         let c = || col(cname);
         let l = |x: i64| E::Lit(V::Int(x));
         let r = self.rng.below(100);
-        if r < 45 {
-            bin(*self.rng.pick(&[BinOp::Ge, BinOp::Gt]), c(), l(lo))
-        } else if r < 60 {
-            bin(BinOp::And, bin(BinOp::Ge, c(), l(lo)), bin(BinOp::Le, c(), l(lo + 8)))
+        if r < 52 {
+            bin(*self.rng.pick(&[BinOp::Ge, BinOp::Gt, BinOp::Le, BinOp::Lt]), c(), l(if r % 2 == 0 { lo } else { lo + 9 }))
         } else if r < 70 {
+            bin(BinOp::And, bin(BinOp::Ge, c(), l(lo)), bin(BinOp::Le, c(), l(lo + 8)))
+        } else if r < 82 {
             bin(BinOp::Or, bin(BinOp::Lt, c(), l(lo)), bin(BinOp::Gt, c(), l(lo + 2)))
-        } else if r < 80 {
+        } else if r < 88 {
             E::Between(Box::new(c()), Box::new(l(lo)), Box::new(l(lo + 8)), false)
-        } else if r < 87 {
+        } else if r < 92 {
             bin(BinOp::Ne, c(), l(lo + 2))
-        } else if r < 94 {
+        } else if r < 96 {
             E::InList(Box::new(c()), (0..4).map(|k| l(lo + 2 * k)).collect(), false)
         } else {
             bin(BinOp::Le, l(lo), c())
@@ -972,7 +988,7 @@ fn observe(db: &mut Db, model: &MDb) -> Obs {
 
 /// compare the observed state with the model; the first difference gives the primary violation,
 /// constraint violations of TurDB's own state are reported in addition (class `constraint`)
-fn judge_state(o: &Obs, model: &MDb, before: &MDb, i: usize, s: &Stmt, assertion: &str, class: &'static str, why: Option<&str>) -> Vec<Viol> {
+fn judge_state(o: &Obs, model: &MDb, before: &MDb, i: usize, s: &Stmt, assertion: &str, class: &'static str, why: Option<&str>, delta: &BTreeMap<String, i64>) -> Vec<Viol> {
     let mut out = vec![];
     let kind = kind0(s);
     let txn = if model.in_txn() { "+in_txn" } else { "" };
@@ -1051,8 +1067,10 @@ fn judge_state(o: &Obs, model: &MDb, before: &MDb, i: usize, s: &Stmt, assertion
         }
         match &o.counts[k] {
             Ok(n) => {
-                if *n != want.len() as i64 {
-                    let dir = if *n > want.len() as i64 { "over" } else { "under" };
+                // `delta`: COUNT(*) drift already reported at an earlier resynchronisation of this history
+                let want_n = want.len() as i64 + delta.get(k).copied().unwrap_or(0);
+                if *n != want_n {
+                    let dir = if *n > want_n { "over" } else { "under" };
                     let core = if class == "error_atomicity" { format!("{}/count_star_{}/{}", kind, dir, why.unwrap_or("error").split(':').next().unwrap_or("error")) } else { format!("count_star_{}_after_{}", dir, kind) };
                     let own = class == "error_atomicity" || class == "rollback";
                     let core = if class == "rollback" { format!("count_star_{}_after_{}", dir, kind) } else { core };
@@ -1214,6 +1232,24 @@ pub fn run_history(scratch: &Scratch, tag: &str, stmts: &[Stmt]) -> RunOut {
 /// `fast`: the full state is observed only after the last statement and after statements both sides reject
 /// (used for minimisation candidates; the result is re-checked with a full run)
 fn run_history_opt(scratch: &Scratch, tag: &str, stmts: &[Stmt], fast: bool) -> RunOut {
+    let mut pending: Vec<Viol> = vec![];
+    let mut out = run_history_inner(scratch, tag, stmts, fast, &mut pending);
+    if !pending.is_empty() {
+        let mut all = pending;
+        if let Some(v) = out.viol.take() {
+            all.push(v);
+        }
+        all.extend(out.extra.drain(..));
+        out.viol = Some(all.remove(0));
+        out.extra = all;
+    }
+    out
+}
+
+/// `pending`: violations after which the history went on. A failed statement that left rows behind
+/// (error_atomicity) does not end the history: the model is re-synchronised with the state TurDB shows, so
+/// that the rest of the history stays sensitive to other defects (at most 2 such resynchronisations).
+fn run_history_inner(scratch: &Scratch, tag: &str, stmts: &[Stmt], fast: bool, pending: &mut Vec<Viol>) -> RunOut {
     let mut out = RunOut { viol: None, extra: vec![], executed: 0, dropped_unsupported: false, kinds: BTreeMap::new(), cov: BTreeMap::new(), failing_stmts: 0, rollbacks: 0 };
     let mut db = match Db::create(&scratch.dir(tag)) {
         Ok(d) => d,
@@ -1222,10 +1258,8 @@ fn run_history_opt(scratch: &Scratch, tag: &str, stmts: &[Stmt], fast: bool) -> 
             return out;
         }
     };
-    if std::env::var("TV_DML_SYNC").map(|v| v == "off").unwrap_or(false) {
-        let _ = db.exec("PRAGMA synchronous = OFF");
-    }
     let mut model = MDb::default();
+    let mut delta: BTreeMap<String, i64> = BTreeMap::new();
     let finish = |out: &mut RunOut, mut vs: Vec<Viol>| {
         if !vs.is_empty() {
             out.viol = Some(vs.remove(0));
@@ -1240,6 +1274,9 @@ fn run_history_opt(scratch: &Scratch, tag: &str, stmts: &[Stmt], fast: bool) -> 
             return out;
         }
         out.executed = i + 1;
+        if let Stmt::Truncate(t) = s {
+            delta.remove(&t.to_lowercase());
+        }
         *out.kinds.entry(s.kind().to_string()).or_insert(0) += 1;
         coverage(&mut out.cov, &before, s, &m);
         let got = db.exec(&s.sql());
@@ -1288,14 +1325,14 @@ fn run_history_opt(scratch: &Scratch, tag: &str, stmts: &[Stmt], fast: bool) -> 
                 if matches!(s, Stmt::Rollback | Stmt::RollbackTo(_)) {
                     out.rollbacks += 1;
                     let o = observe(&mut db, &model);
-                    let vs = judge_state(&o, &model, &before, i, s, "rollback_restores_state", "rollback", None);
+                    let vs = judge_state(&o, &model, &before, i, s, "rollback_restores_state", "rollback", None, &delta);
                     if !vs.is_empty() {
                         finish(&mut out, vs);
                         return out;
                     }
                 } else if s.is_mutation() && (!fast || i + 1 == stmts.len()) {
                     let o = observe(&mut db, &model);
-                    let vs = judge_state(&o, &model, &before, i, s, "state_matches_model", "state", None);
+                    let vs = judge_state(&o, &model, &before, i, s, "state_matches_model", "state", None, &delta);
                     if !vs.is_empty() {
                         finish(&mut out, vs);
                         return out;
@@ -1306,11 +1343,30 @@ fn run_history_opt(scratch: &Scratch, tag: &str, stmts: &[Stmt], fast: bool) -> 
                 // both reject: the visible state must be exactly what it was (model.apply left the model untouched)
                 out.failing_stmts += 1;
                 let why = why.replace("constraint:", "").replace(' ', "_");
-                if fast && i + 1 != stmts.len() {
+                let o = observe(&mut db, &model);
+                let vs = judge_state(&o, &model, &before, i, s, "unchanged_after_error", "error_atomicity", Some(&why), &delta);
+                let resync = !vs.is_empty() && vs[0].class == "error_atomicity" && i + 1 != stmts.len() && pending.iter().filter(|v| v.assertion == "unchanged_after_error").count() < 2 && o.tables.values().all(|t| t.is_ok());
+                // the state TurDB shows must itself satisfy the declared constraints, else the model cannot adopt it
+                let adoptable = resync && {
+                    let dumped: BTreeMap<String, Vec<Row>> = o.tables.iter().filter_map(|(k, r)| r.as_ref().ok().map(|r| (k.clone(), r.clone()))).collect();
+                    model.state_violations(&dumped).is_empty()
+                };
+                if adoptable {
+                    pending.extend(vs.into_iter().filter(|v| v.class == "error_atomicity"));
+                    for (k, rows) in &o.tables {
+                        if let (Some(t), Ok(rows)) = (model.st.tables.get_mut(k), rows) {
+                            t.1 = rows.clone();
+                            if let Some(Ok(c)) = o.counts.get(k) {
+                                delta.insert(k.clone(), *c - rows.len() as i64);
+                            }
+                            if t.0.cols.iter().any(|c| c.auto_inc) {
+                                model.ai_uncertain.insert(k.clone());
+                            }
+                        }
+                    }
+                    bump(&mut out.cov, "model_resynchronised_after_non_atomic_failure");
                     continue;
                 }
-                let o = observe(&mut db, &model);
-                let vs = judge_state(&o, &model, &before, i, s, "unchanged_after_error", "error_atomicity", Some(&why));
                 if !vs.is_empty() {
                     finish(&mut out, vs);
                     return out;
@@ -1324,7 +1380,7 @@ fn run_history_opt(scratch: &Scratch, tag: &str, stmts: &[Stmt], fast: bool) -> 
                 let names_constraint = ["constraint", "violat", "referenced", "unique", "foreign key", "not null", "primary key", "check"].iter().any(|w| el.contains(w));
                 let class = if dml && names_constraint { "constraint" } else { "dml_result" };
                 // facts that tell apart the usual suspects
-                let mut core = format!("{}_rejected:{}", kind0(s), err_class(e));
+                let mut core = format!("{}_rejected:{}", kind0(s), err_class2(e));
                 if let Stmt::Update { table, sets, .. } = s {
                     // would a row-at-a-time check see a duplicate that the final state does not have?
                     let tk = table.to_lowercase();
@@ -1800,7 +1856,10 @@ pub fn traits_of(stmts: &[Stmt], v: &Viol) -> Vec<String> {
     let fail = &stmts[fi];
     let mut model = MDb::default();
     for s in &stmts[..fi] {
-        let _ = model.apply(s);
+        if let Err(MErr::Error(_)) = model.apply(s) {
+            t.insert(format!("after_failed_{}", kind0(s)));
+            continue;
+        }
         match s {
             Stmt::Delete { .. } => {
                 t.insert("after_delete".into());
@@ -1925,7 +1984,9 @@ pub fn traits_of(stmts: &[Stmt], v: &Viol) -> Vec<String> {
         }
         _ => {}
     }
-    t.into_iter().collect()
+    // consequences of an earlier non-atomic failure come first, so that a `...after_failed_insert*` prefix can name them
+    let (a, b): (Vec<String>, Vec<String>) = t.into_iter().partition(|x| x.starts_with("after_failed_"));
+    a.into_iter().chain(b).collect()
 }
 
 // ---------------------------------------------------------------- driver
@@ -1937,6 +1998,16 @@ pub fn classes_of(prop: &str) -> &'static [&'static str] {
         "C07" => &["rollback"],
         "C09" => &["constraint"],
         _ => &[],
+    }
+}
+
+/// C05 and C06 also look at constraint-heavy schemas (FK cascades change other tables' rows and COUNT(*);
+/// failing parent updates/deletes): every sixth / fifth history is generated with the C09 focus
+fn focus_of(prop: &str, focus: Focus, i: usize) -> Focus {
+    match prop {
+        "C05" if i % 6 == 5 => Focus::Constraints,
+        "C06" if i % 5 == 4 => Focus::Constraints,
+        _ => focus,
     }
 }
 
@@ -1997,7 +2068,7 @@ pub fn run_prop(a: &Args, prop: &'static str, focus: Focus, rule: &str) -> i32 {
                     break;
                 }
                 let hseed = Rng::derive(seed, 50_000 + i as u64 + (prop.as_bytes()[2] as u64) * 1_000_000).next();
-                let stmts = gen_history(hseed, focus, max_stmts);
+                let stmts = gen_history(hseed, focus_of(prop, focus, i), max_stmts);
                 let out = run_history(scratch, &format!("w{}", t), &stmts);
                 results.lock().unwrap().push(Case { i, stmts, out });
             });
@@ -2124,7 +2195,7 @@ pub fn run_prop(a: &Args, prop: &'static str, focus: Focus, rule: &str) -> i32 {
             ctx.count(&format!("cov_{}", k), *n);
         }
         // non-trivial: the history exercised the property's mechanism
-        let nontrivial = match focus {
+        let nontrivial = match focus_of(prop, focus, i) {
             Focus::Failing => out.failing_stmts > 0,
             Focus::Txn => out.rollbacks > 0,
             _ => out.executed > 8,
